@@ -33,6 +33,14 @@ func NewIntrospectionSchemaSyncer(ctx context.Context, executors map[string]Exec
 func (s *IntrospectionSchemaSyncer) FetchPlannerAndSchema(ctx context.Context) (*Planner, *graphql.Schema, error) {
 	schemas := make(map[string]*IntrospectionQueryResult)
 	for server, client := range s.executors {
+		// NewExecutor and setPlanner register the gateway's own introspection
+		// client in the executors map the syncer was given. It describes the
+		// schema of the previous refresh: merging that into the new one would
+		// keep everything the services have dropped, and would make the refresh
+		// fail for good after an incompatible change. Its entry is rebuilt below.
+		if server == IntrospectionClientName {
+			continue
+		}
 		resp, err := fetchSchema(ctx, client, s.queryMetadata)
 		if err != nil {
 			return nil, nil, oops.Wrapf(err, "fetching schema %s", server)
